@@ -336,6 +336,19 @@ func (d *Datastore) lowlevelTransactionSet(ctx context.Context, transaction *typ
 		delSl := deletesOwner.StringSlice()
 		log.Debugf("Deletes Owner: %s \n%s", intent.GetName(), strings.Join(delSl, "\n"))
 
+		// The intended store keeps entries per path, priority and owner. If the priority of the intent changed,
+		// the entries stored under the old priority are not addressed by the modify below, so remove them explicitly.
+		if oldIntent := transaction.GetOldIntent(intent.GetName()); oldIntent != nil && len(oldIntent.GetUpdates()) > 0 && oldIntent.GetPriority() != intent.GetPriority() {
+			err = d.cacheClient.Modify(ctx, d.Name(), &cache.Opts{
+				Store:    cachepb.Store_INTENDED,
+				Owner:    intent.GetName(),
+				Priority: oldIntent.GetPriority(),
+			}, oldIntent.GetPathSet().GetPaths().ToStringSlice(), nil)
+			if err != nil {
+				return nil, fmt.Errorf("failed updating the intended store for %s: %w", d.Name(), err)
+			}
+		}
+
 		// modify intended store per intent
 		err = d.cacheClient.Modify(ctx, d.Name(), &cache.Opts{
 			Store:    cachepb.Store_INTENDED,
